@@ -104,7 +104,39 @@ func parseListMap(p *parser, bp oper.BP, t *token.Token) ast.Expr {
 		rg := pos.Range(t, rb)
 		return ast.Map([]ast.Pair{}, rg)
 	}
-	return p.any("list or map", parseList(t), parseMap(t))
+	return p.any("list or map", parseListOrMap(t))
+}
+
+// parseListOrMap 解析完第一个元素之后再决定是 list 还是 map, 避免 list 失败后回溯重新解析(嵌套时指数级)
+func parseListOrMap(t *token.Token) func(p *parser) ast.Expr {
+	return func(p *parser) ast.Expr {
+		if p.peek().Kind == token.RIGHT_BRACKET {
+			return parseList(t)(p)
+		}
+		fst := p.expr(0)
+		if p.tryEat(token.COLON) == nil {
+			elems := []ast.Expr{fst}
+			for p.tryEat(token.COMMA) != nil {
+				if p.peek().Kind == token.RIGHT_BRACKET {
+					break
+				}
+				elems = append(elems, p.expr(0))
+			}
+			rb := p.mustEat(token.RIGHT_BRACKET)
+			return ast.List(elems, pos.Range(t, rb))
+		}
+		pairs := []ast.Pair{{Key: fst, Val: p.expr(0)}}
+		for p.tryEat(token.COMMA) != nil {
+			if p.peek().Kind == token.RIGHT_BRACKET {
+				break
+			}
+			k := p.expr(0)
+			p.mustEat(token.COLON)
+			pairs = append(pairs, ast.Pair{Key: k, Val: p.expr(0)})
+		}
+		rb := p.mustEat(token.RIGHT_BRACKET)
+		return ast.Map(pairs, pos.Range(t, rb))
+	}
 }
 
 func parseList(t *token.Token) func(p *parser) ast.Expr {
